@@ -15,6 +15,7 @@ import ast
 import os
 
 from .. import translate
+from . import normalize
 
 REL = "fairlearn/metrics/_disaggregated_result.py"
 
@@ -95,7 +96,7 @@ def match(term, pattern, what):
 def lift(repo):
     from . import aggregate_gen
     src = open(os.path.join(repo, REL)).read()
-    tree = ast.parse(src)
+    tree = normalize.parse(src)
     cls = next((n for n in tree.body if isinstance(n, ast.ClassDef) and n.name == "DisaggregatedResult"), None)
     if cls is None:
         raise U("class DisaggregatedResult not found")
